@@ -4,8 +4,9 @@ A file is a list of logical lines; a parameter line is ('p', name, value, tail) 
 anything else is ('o', raw).  Every transformation keeps the parameter set {name: value} (last occurrence) and the
 relative order of the add-on lines, so by property C12 the simulation result must not change."""
 
-# str.isspace() code points < 256 that are not line terminators for file.readlines()
-WS = [' ', ' ', ' ', '\t', '\t', '\x0b', '\x0c', '\x1c', '\x1d', '\x1e', '\x1f', '\x85', '\xa0']
+# str.isspace() code points (all of them, incl. U+00A0, U+2003, U+3000 ...) that are not line terminators for file.readlines()
+WS = [' ', ' ', ' ', '\t', '\t', '\x0b', '\x0c', '\x1c', '\x1d', '\x1e', '\x1f', '\x85', '\xa0', '\xa0', '\u1680', '\u2000', '\u2003',
+      '\u2009', '\u200a', '\u2028', '\u2029', '\u202f', '\u205f', '\u3000']
 EOLS = {'lf': '\n', 'crlf': '\r\n', 'cr': '\r'}
 CLASSES = ['perm', 'ws', 'comment', 'dup', 'eol', 'all']
 BLOCK_CLASSES = ['block-first', 'block-last']   # whole runs only: the add-on block moved before / after everything else
